@@ -65,7 +65,8 @@ THEOREMS = [("Kopf.Props.C19", "Kopf.C19." + n) for n in [
     "pass_progress", "no_lost_wakeup", "exactly_one_watch_async_partial", "served_pairs_live_async",
     "death_while_idle_witness", "unlocked_pass_loses_wakeup_witness"]]
 TIE_THEOREMS = [("Kopf.Tie.C19", "Kopf.C19.Tie.pass_under_lock")]
-RULE = ("stream scripts: 0-2 pre-existing objects, cluster-wide or namespaced watch, 3-10 moments at dyadic times, each a "
+RULE = ("stream scripts: first resourceVersion just below 10/100/1000 in 35 % of the scripts (the versions change their digit count "
+        "after a few events), 0-2 pre-existing objects, cluster-wide or namespaced watch, 3-10 moments at dyadic times, each a "
         "cluster of 1-3 ops in random order from {create/edit/delete/other-resource write, break eof/conn/410/error/garbage, "
         "bookmark, unknown-type line, compact, HTTP-410 mode, request fault (429+Retry-After/500/403/404/conn/timeout × count; each "
         "re-sent attempt is a `retry` act of the model) on list or watch}, isolated pause/resume moments, server/client/inactivity timeouts small enough to fire; "
@@ -140,6 +141,9 @@ F6_SIG = {"site": "orchestration.orchestrator.exception_handler",
           "shape": "watcher exits on HTTP 404 while the orchestrator is idle: nobody is notified, the served pair stays unwatched until the next revision"}
 F4_SIG = {"site": "orchestration.spawn_missing_watchers",
           "shape": "dead watcher task (ended with an exception) keeps its key: the served pair is never watched again"}
+
+# first versions just below a power of ten (two namespaces exist from the start: 6 → the first objects get 9, 10, 11, …)
+RV_STARTS = [5, 6, 7, 94, 95, 96, 97, 994, 996, 997]
 
 CLIENT_ACTS = {"wake", "notice", "unblock", "respond", "failReq", "retry", "deliver", "bookmark", "drop", "err410",
                "errUnknown", "unknownType", "garbage"}
@@ -236,7 +240,10 @@ def gen_script(rng: random.Random, seed: int) -> dict:
         ops.append([t] + change_op())
     # settle long enough for every scripted request fault to be consumed (timeouts: 8 s per attempt)
     slack = sum(int(o[4]) * 11.0 for o in ops if o[1] == "fail")
-    return {"seed": seed, "ns": ns, "settings": st, "ops": ops, "end": t + 64.0 + slack}
+    sc = {"seed": seed, "ns": ns, "settings": st, "ops": ops, "end": t + 64.0 + slack}
+    if rng.random() < 0.35:
+        sc["rv0"] = rng.choice(RV_STARTS)       # the versions cross a power of ten within the first few events
+    return sc
 
 
 def _parse_chunk(txt: str) -> tuple[str, Any]:
@@ -708,8 +715,11 @@ def gen_operator(rng: random.Random, seed: int) -> dict:
                        rng.choice(["team-a", "team-b", "other"]), rng.choice(["x", "y"])])
         t += 2.0
         tl.append([t, "check"])
-    return {"seed": seed, "clusterwide": clusterwide, "patterns": ["team-*"], "handlers": handlers,
-            "initial_resources": init_res, "initial_namespaces": init_ns, "timeline": tl, "end": t + 3.0}
+    sc = {"seed": seed, "clusterwide": clusterwide, "patterns": ["team-*"], "handlers": handlers,
+          "initial_resources": init_res, "initial_namespaces": init_ns, "timeline": tl, "end": t + 3.0}
+    if rng.random() < 0.4:
+        sc["rv0"] = rng.choice([0, 1, 2, 88, 90, 92, 985, 990])   # namespaces + CRDs + objects cross 10 / 100 / 1000
+    return sc
 
 
 def gen_rapid(rng: random.Random, seed: int) -> dict:
@@ -738,7 +748,8 @@ def gen_rapid(rng: random.Random, seed: int) -> dict:
     tl.append([t, "check"])
     return {"seed": seed, "clusterwide": clusterwide, "patterns": ["team-*"], "handlers": handlers, "handler_sleep": sleep,
             "settings": {"exit_timeout": rng.choice([2.0, 2.0, 1.0])},
-            "initial_resources": init_res, "initial_namespaces": init_ns, "timeline": tl, "end": t + 2.0, "rapid": True}
+            "initial_resources": init_res, "initial_namespaces": init_ns, "timeline": tl, "end": t + 2.0, "rapid": True,
+            **({"rv0": rng.choice([0, 2, 88, 92, 988])} if rng.random() < 0.3 else {})}
 
 
 SCOPE = {"kopfexamples": True, "widgets": True, "clusterthings": False}
@@ -890,6 +901,7 @@ def absorb(ctx: Ctx, res: dict, source: str, pending: dict) -> None:
                  sample={"script": case, "acts": res["acts"][:40], "outs": res["outs"][:40]} if res["nontrivial"] else None)
         for k, v in res["hist"].items():
             ctx.count("acts", k, v)
+        ctx.count("rv_start", "below a power of ten" if case.get("rv0") is not None else "default (102)")
         ctx.count("stream_end", "raised" if res["exc"] else "paused" if res["paused_at_end"] else "streaming")
         ctx.count("http_attempts", "total", res["attempts"])
         if res["anomalies"]:
